@@ -125,7 +125,16 @@ class StrShim(metaclass=_Meta):
         return str(x)
 
 
-_SHIMS = {"str": StrShim, "int": IntShim, "float": FloatShim, "bytes": BytesShim, "bytearray": ByteArrayShim}
+def hex_shim(x):
+    from .strings import SymText
+    if isinstance(x, SymInt):
+        if x.lo < 0:
+            raise Unsupported("hex() of a possibly negative symbolic int")
+        return SymText("hexnum", x)
+    return hex(x)
+
+
+_SHIMS = {"hex": hex_shim, "str": StrShim, "int": IntShim, "float": FloatShim, "bytes": BytesShim, "bytearray": ByteArrayShim}
 
 _saved = []  # (obj, attr, had, old)
 _active = {"on": False}
